@@ -17,6 +17,9 @@ from . import explorer
 
 VERIF = env.VERIF_DIR
 KNOWN_FILE = os.path.join(VERIF, "known_findings.json")
+# developer-only (tools/run_mutants.py): write replays and evidence of a run on a scratch copy elsewhere, so
+# that a demonstration on mutated code never overwrites the evidence of the tree under test
+OUT = os.environ.get("VERIF_OUT_DIR") or VERIF
 
 
 def sig_hash(sig):
@@ -253,7 +256,7 @@ def run_check(prop, tier, replay_path=None):
         new.append((h, v, n))
 
     rc = 0
-    replay_dir = os.path.join(VERIF, "replays", prop)
+    replay_dir = os.path.join(OUT, "replays", prop)
     if os.path.isdir(replay_dir):
         for fn in os.listdir(replay_dir):
             if fn.endswith(".json"):
@@ -356,8 +359,8 @@ def write_evidence(ctx, open_f, nviol):
         "wall_s": round(time.time() - ctx.t0, 2),
         "violations": nviol,
     }
-    os.makedirs(os.path.join(VERIF, "evidence"), exist_ok=True)
-    path = os.path.join(VERIF, "evidence", "%s.json" % ctx.prop)
+    os.makedirs(os.path.join(OUT, "evidence"), exist_ok=True)
+    path = os.path.join(OUT, "evidence", "%s.json" % ctx.prop)
     tmp = path + ".tmp"
     with open(tmp, "w") as fh:
         json.dump(ev, fh, indent=1, sort_keys=True)
